@@ -102,6 +102,24 @@ CHECKS = {
              "memory word are compared between the three models, under randReset 0/1/2 and --x-assign/--x-initial unique.",
         note="Behavioural, two-state simulation; X terms of the sv2v text are sampled. Textual identity of the two copies is reported as information only.",
         ref="4/C16"),
+    "C13": dict(
+        technique="runtime monitoring: differential runs of the real hextb across Verilator seeds, and of hextb.cpp's own load()/run() under planted adversarial power-on states, against hexsim's result",
+        engine="rtl-lockstep",
+        text="Exploration: (1) the hextb executable on 6-40 binaries x 1500-10000 consecutive +verilator+seed values, stdout and exit "
+             "status compared with hexsim; (2) a harness linking hextb.cpp with a Vhex_pkg model plants, before load(), registers and "
+             "non-image memory so that a pre-reset clock edge would service a system call, store into each class of image word or arrive "
+             "at reset with dirty registers; full runs must give the clean result and runs cut just before the first post-reset "
+             "instruction must show zero registers, an intact image, no output and no input consumed.",
+        note="Power-on states are sampled and targeted, not enumerated. Expected result = hexsim on the same binary/input.",
+        ref="4/C13"),
+    "C06": dict(
+        technique="runtime monitoring: differential execution of the hextb and hexsim executables (stdout, exit status, simout files) and in-process with counted input",
+        engine="rtl-lockstep",
+        text="Exploration: binaries of generated well-defined X programs and the shipped sources, 1-2 inputs each (empty, bytes >= 0x80, "
+             "reads past end of input, file streams), run on both executables built from the tree and, in-process, on hextb.cpp's own "
+             "load()/run() versus hexsim::Processor with the number of consumed input bytes compared.",
+        note="Trusted: lib/xref.py only as the filter for 'well-defined'. hextb runs use a fixed seed here; seed independence is C13.",
+        ref="4/C06"),
 }
 
 PENDING_REASON = "no check registered yet in this revision of /verif (machinery for it is still being built; see DESIGN.md section 4)"
@@ -136,7 +154,7 @@ def main():
              "kind_free_text": "in-process assembler driver (HEX_VERIF layout hook) with image decode-walk"},
             {"name": "xref", "path": "lib/xref.py", "serves_properties": ["C01", "C07", "C08", "C15"],
              "kind_free_text": "reference parser and definitional interpreter for X with event log and well-definedness monitor; lib/xgen.py generators; harness/h_x.cpp compile+lock-step runner"},
-            {"name": "rtl-lockstep", "path": "harness/h_rtl.cpp", "serves_properties": ["C03", "C16"],
+            {"name": "rtl-lockstep", "path": "harness/h_rtl.cpp", "serves_properties": ["C03", "C06", "C13", "C16"],
              "kind_free_text": "Verilated models built by the check from the working tree, stepped in lock-step; state access by name"},
             {"name": "buildcache", "path": "lib/common.py", "serves_properties": sorted(CHECKS),
              "kind_free_text": "content-hash build cache, fork-per-case runner, verdict/evidence/known-finding plumbing"},
